@@ -8,6 +8,116 @@ TABLES = ("comments", "padding", "symbolicExpressionSizes")
 
 
 # ----------------------------------------------------------------------------- random byte intervals for split / join
+NOPS = ["90", "6690", "0f1f00", "1f2003d5", "00000000"]
+ISAS = [("X64", "ELF", "x86"), ("IA32", "PE", "x86"), ("ARM64", "ELF", "arm64"), ("MIPS32", "ELF", "mips")]
+
+
+def gen_nop(rnd):
+    """how join_byte_intervals learns the nop: as its nop argument, through nop_encodings (which wins over the argument), or not at all
+    (then it asks the ABI of the module)"""
+    k = rnd.random()
+    if k < 0.45:
+        return ("arg", rnd.choice(NOPS[:1] * 3 + NOPS))
+    if k < 0.6:
+        return ("enc", rnd.choice(NOPS))
+    if k < 0.7:
+        return ("both", rnd.choice(NOPS))
+    return ("abi", rnd.randrange(len(ISAS)))
+
+
+def nop_token(c):
+    how, v = c.get("nop", ("arg", "90"))
+    return f"abi:{v}" if how == "abi" else v
+
+
+def nop_args(c):
+    import gtirb
+    how, v = c.get("nop", ("arg", "90"))
+    D = gtirb.CodeBlock.DecodeMode.Default
+    if how == "arg":
+        return dict(nop=bytes.fromhex(v))
+    if how == "enc":
+        return dict(nop_encodings={D: bytes.fromhex(v)})
+    if how == "both":
+        return dict(nop=b"\xcc" * (len(v) // 2), nop_encodings={D: bytes.fromhex(v)})
+    return dict()
+
+
+def module_kind(c):
+    import gtirb
+    how, v = c.get("nop", ("arg", "90"))
+    isa, fmt, _ = ISAS[v] if how == "abi" else ISAS[0]
+    return getattr(gtirb.Module.ISA, isa), getattr(gtirb.Module.FileFormat, fmt)
+
+
+def padding_decodes_as_nops(c, j, blocks):
+    """the bytes join_byte_intervals adds behind code, read by a disassembler for the module's ISA: nothing but nops (ABI nops, joins of
+    explicit parts that all have blocks).  A padding block starts with whatever initialized bytes of its part lay behind the part's
+    last block; the rest of it was added."""
+    import capstone
+    import gtirb
+    how, v = c.get("nop", ("arg", "90"))
+    if how != "abi" or "parts" not in c or any(not p["blocks"] for p in c["parts"]):
+        return None
+    arch = {"x86": (capstone.CS_ARCH_X86, capstone.CS_MODE_64 if v == 0 else capstone.CS_MODE_32), "arm64": (capstone.CS_ARCH_ARM64, capstone.CS_MODE_ARM),
+            "mips": (capstone.CS_ARCH_MIPS, capstone.CS_MODE_MIPS32 + capstone.CS_MODE_BIG_ENDIAN)}[ISAS[v][2]]
+    md = capstone.Cs(*arch)
+    gap_at = {}
+    for p in c["parts"]:
+        lb = max(p["blocks"], key=lambda b: b[1])
+        end = blocks[lb[0]].offset + blocks[lb[0]].size          # where the part's last block ends in the joined interval
+        if lb[1] + lb[2] <= p["init"]:                           # (a block reaching into uninitialized bytes: the fill starts inside it)
+            gap_at[end] = p["init"] - (lb[1] + lb[2])
+    for b in j.blocks:
+        if isinstance(b, gtirb.CodeBlock) and b.size and not getattr(b, "_c10_original", False) and b.offset in gap_at:
+            data = bytes(j.contents[b.offset + gap_at[b.offset]:b.offset + b.size])
+            insns = list(md.disasm(data, 0))
+            if sum(i.size for i in insns) != len(data) or any(i.mnemonic != "nop" for i in insns):
+                return f"the bytes added behind code on {ISAS[v][0]} are {data.hex()}, which a disassembler reads as {[i.mnemonic + ' ' + i.op_str for i in insns][:3]}, not as nops"
+    return None
+
+
+def padding_blocks_ok(j):
+    """blocks that join_byte_intervals made are of the kind of the block in front of them (code behind code, data behind data or
+    nothing)"""
+    import gtirb
+    bs = sorted(j.blocks, key=lambda b: (b.offset, not getattr(b, "_c10_original", False)))
+    for p in bs:
+        if getattr(p, "_c10_original", False) or not p.size:
+            continue
+        before = [o for o in bs if getattr(o, "_c10_original", False) and o.offset <= p.offset]
+        lastb = max(before, key=lambda b: b.offset, default=None)
+        ties = [o for o in before if o.offset == lastb.offset] if lastb is not None else []
+        if len({isinstance(o, gtirb.CodeBlock) for o in ties}) > 1:
+            continue                        # blocks of both kinds at the last offset: either may count as the last block
+        want_code = isinstance(lastb, gtirb.CodeBlock)
+        if isinstance(p, gtirb.CodeBlock) != want_code:
+            return (f"the padding block at offset {p.offset} is a {'code' if isinstance(p, gtirb.CodeBlock) else 'data'} block behind "
+                    f"{'a code block' if want_code else 'a data block' if lastb is not None else 'no block'}")
+    return None
+
+
+def nop_len(nop):
+    how, v = nop
+    return {0: 1, 1: 1, 2: 4, 3: 4}[v] if how == "abi" else len(v) // 2
+
+
+def scale(c, u):
+    """every offset, size and boundary of a case multiplied by u: the layouts of a fixed-width ISA (so that padding is a whole number
+    of 4-byte nops)"""
+    def part(p):
+        p["size"] *= u
+        p["init"] *= u
+        p["blocks"] = [(b, o * u, z * u, k) for (b, o, z, k) in p["blocks"]]
+        p["symex"] = {o * u: v for o, v in p["symex"].items()}
+        p["tabs"] = [{o * u: v for o, v in t.items()} for t in p["tabs"]]
+        p["addr"] = 0x1000 + (p["addr"] - 0x1000) * u
+    for p in c.get("parts", [c]):
+        part(p)
+    c["align"] = {b: a * u for b, a in c["align"].items()}
+    return c
+
+
 def gen_interval(rnd):
     size = rnd.randint(1, 24)
     init = size if rnd.random() < 0.7 else rnd.randint(0, size)
@@ -43,7 +153,10 @@ def gen_interval(rnd):
     symex = {o: 100 + o for o in range(size) if rnd.random() < 0.15}
     tabs = [{o: 10 * t + o for o in range(size) if rnd.random() < 0.1} for t in range(3)]
     align = {b[0]: rnd.choice([2, 4, 8]) for b in blocks if rnd.random() < 0.2}
-    return dict(size=size, init=init, blocks=blocks, symex=symex, tabs=tabs, align=align, addr=0x1000 + rnd.choice([0, 0, 3, 8]))
+    c = dict(size=size, init=init, blocks=blocks, symex=symex, tabs=tabs, align=align, addr=0x1000 + rnd.choice([0, 0, 3, 8]), nop=gen_nop(rnd))
+    if nop_len(c["nop"]) == 4 and size <= 12 and rnd.random() < 0.7:
+        scale(c, 4)
+    return c
 
 
 def model_line(c):
@@ -54,18 +167,21 @@ def model_line(c):
     for t in c["tabs"]:
         p.append(str(len(t)) + " " + " ".join(f"{o} {v}" for o, v in sorted(t.items())))
     p.append(str(len(c["align"])) + " " + " ".join(f"{b} {a}" for b, a in sorted(c["align"].items())))
+    p.append(nop_token(c))
     return " ".join(p)
 
 
 def build_interval(c):
     import gtirb
     ir = gtirb.IR()
-    m = gtirb.Module(name="m", isa=gtirb.Module.ISA.X64, file_format=gtirb.Module.FileFormat.ELF, byte_order=gtirb.Module.ByteOrder.Little, ir=ir)
+    isa, fmt = module_kind(c)
+    m = gtirb.Module(name="m", isa=isa, file_format=fmt, byte_order=gtirb.Module.ByteOrder.Little, ir=ir)
     sec = gtirb.Section(name=".text", module=m)
     bi = gtirb.ByteInterval(contents=bytes(range(1, c["init"] + 1)), size=c["size"], address=c["addr"], section=sec)
     blocks = {}
     for (bid, off, sz, code) in c["blocks"]:
         blocks[bid] = (gtirb.CodeBlock if code else gtirb.DataBlock)(offset=off, size=sz, byte_interval=bi)
+        blocks[bid]._c10_original = True
     syms = {}
     for o, v in c["symex"].items():
         s = gtirb.Symbol(f"x{v}", module=m)
@@ -114,8 +230,11 @@ def run_splitjoin(c):
                 facts["own_interval"] = False
             end = max(end or 0, b.offset + b.size)
     try:
-        j = join_byte_intervals(parts, b"\x90", alignment)
+        j = join_byte_intervals(parts, alignment=alignment, **nop_args(c))
         s2 = dump_interval(m, j, blocks, syms)
+        c["_pad"] = padding_blocks_ok(j) if all(off + sz <= c["init"] for (_, off, sz, _) in c["blocks"]) else None
+        facts["size_kept"] = j.size == c["size"]
+        facts["addr_kept_after_join"] = all(blocks[k].address == addr_before[k] for k in blocks)
     except Exception as e:   # noqa
         s2 = "err " + ("ValueError" if type(e).__name__ == "PaddingError" else type(e).__name__)
     return s1 + " || " + s2, before, facts, (m, blocks)
@@ -139,7 +258,10 @@ def gen_parts(rnd):
                           tabs=[{o: 100 * t + 10 * bid + o for o in range(size) if rnd.random() < 0.12} for t in range(3)], addr=addr))
         addr += size
     align = {b[0]: rnd.choice([2, 4]) for p in parts for b in p["blocks"] if rnd.random() < 0.15}
-    return dict(parts=parts, align=align)
+    c = dict(parts=parts, align=align, nop=gen_nop(rnd))
+    if nop_len(c["nop"]) == 4 and rnd.random() < 0.7:
+        scale(c, 4)
+    return c
 
 
 def join_line(c):
@@ -155,6 +277,7 @@ def join_line(c):
         for t in part["tabs"]:
             p.append(str(len(t)) + " " + " ".join(f"{o} {v}" for o, v in sorted(t.items())))
     p.append(str(len(c["align"])) + " " + " ".join(f"{b} {a}" for b, a in sorted(c["align"].items())))
+    p.append(nop_token(c))
     return " ".join(p)
 
 
@@ -162,7 +285,8 @@ def run_join(c):
     import gtirb
     from gtirb_rewriting.intervalutils import join_byte_intervals
     ir = gtirb.IR()
-    m = gtirb.Module(name="m", isa=gtirb.Module.ISA.X64, file_format=gtirb.Module.FileFormat.ELF, byte_order=gtirb.Module.ByteOrder.Little, ir=ir)
+    isa, fmt = module_kind(c)
+    m = gtirb.Module(name="m", isa=isa, file_format=fmt, byte_order=gtirb.Module.ByteOrder.Little, ir=ir)
     sec = gtirb.Section(name=".text", module=m)
     ivs, blocks, syms = [], {}, {}
     tabs = [{} for _ in range(3)]
@@ -173,6 +297,7 @@ def run_join(c):
         bi = gtirb.ByteInterval(contents=data, size=part["size"], address=part["addr"], section=sec)
         for (bid, off, sz, code) in part["blocks"]:
             blocks[bid] = (gtirb.CodeBlock if code else gtirb.DataBlock)(offset=off, size=sz, byte_interval=bi)
+            blocks[bid]._c10_original = True
         for o, v in part["symex"].items():
             s = gtirb.Symbol(f"x{v}", module=m)
             syms[id(s)] = v
@@ -185,8 +310,10 @@ def run_join(c):
         m.aux_data[name] = gtirb.AuxData(tabs[t], "mapping<Offset,string>" if t == 0 else "mapping<Offset,uint64_t>")
     m.aux_data["alignment"] = gtirb.AuxData({blocks[b]: a for b, a in c["align"].items()}, "mapping<UUID,uint64_t>")
     try:
-        j = join_byte_intervals(ivs, b"\x90", m.aux_data["alignment"].data)
+        j = join_byte_intervals(ivs, alignment=m.aux_data["alignment"].data, **nop_args(c))
         out = dump_interval(m, j, blocks, syms)
+        tidy = all(off + sz <= part["init"] for part in c["parts"] for (_, off, sz, _) in part["blocks"])      # no block reaches into uninitialized bytes
+        c["_pad"] = padding_decodes_as_nops(c, j, blocks) or (padding_blocks_ok(j) if tidy else None)
         left = [name for name in TABLES for o in m.aux_data[name].data if o.element_id is not j]
         if left:
             out += " LEFTOVER " + ",".join(sorted(set(left)))
@@ -236,7 +363,9 @@ class C10(IRProp):
         return dict(evaluations=len(lines), distinct_nontrivial=len(set(lines)), samples=[{"case": l[:150], "result": r[0][:250]} for l, r in list(zip(lines, runs))[:3]],
                     disagreements=dis[:20], dist={"intervals": len(cases), "partly_initialized": sum(1 for c in cases if c["init"] < c["size"]),
                                                   "with_overlaps": sum(1 for c in cases if any(a[1] + a[2] > b[1] for a, b in zip(c["blocks"], c["blocks"][1:]))),
-                                                  "join_errors": sum(1 for r in runs if "err" in r[0])})
+                                                  "join_errors": sum(1 for r in runs if "err" in r[0]),
+                                                  "nop_sources": {k: sum(1 for c in cases + jcases if c["nop"][0] == k) for k in ("arg", "enc", "both", "abi")},
+                                                  "padding_refused": sum(1 for r in runs if "err ValueError" in r[0]) + sum(1 for o in jimpl if o == "err ValueError")})
 
     def oracle(self, tier, ctx, boosted):
         pairs = getattr(self, "_sj", None)
@@ -245,10 +374,12 @@ class C10(IRProp):
             pairs = (pairs or []) + [(c, run_splitjoin(c)) for c in cases]
         bads = []
         for c, (out, before, facts, _) in pairs:
-            for k, ok in facts.items():
-                if not ok:
-                    bads.append(dict(what=f"split_byte_interval: {k} violated", input=c, finding=None))
+            if c.get("_pad"):
+                bads.append(dict(what=c["_pad"], input=c, finding=None))
             aligned = all((c["addr"] + off) % c["align"][bid] == 0 for (bid, off, sz, code) in c["blocks"] if bid in c["align"])
+            for k, ok in facts.items():
+                if not ok and (aligned or k not in ("size_kept", "addr_kept_after_join")):
+                    bads.append(dict(what=f"split_byte_interval / join_byte_intervals of an interval whose alignment requirements hold: {k} violated", input=c, finding=None))
             if c["init"] == c["size"] and aligned and "err" not in out:
                 after = out.split(" || ")[1]
                 if after != before:
@@ -261,6 +392,8 @@ class C10(IRProp):
             cs = [gen_parts(rnd) for _ in range(3000)]
             jj = (jj or []) + [(c, run_join(c)) for c in cs]
         for c, out in jj:
+            if c.get("_pad"):
+                bads.append(dict(what=c["_pad"], input=c, finding=None))
             if out.startswith("err"):
                 continue
             want = sorted(v for part in c["parts"] for t in part["tabs"] for v in t.values())
@@ -310,16 +443,41 @@ class C10(IRProp):
             a, b = json.loads(before), json.loads(after)
             diff = [k for k in a if a[k] != b.get(k)]
             return (f"apply() without modifications changes {diff}: {[(a[k], b[k]) for k in diff][:1]}"[:500], None)
-        # (2) alignment after a real rewrite
-        r = irgen.run_impl(case, want_model_line=False)
-        if r["error"] is not None:
+        # (2) alignment after a real rewrite; half of the modules without alignment requirements have no alignment table at all
+        import gtirb_rewriting.prepare as P
+        from helpers import literal_patch
+        B = irgen.build(case)
+        m = B.m
+        if not case.align and rnd.random() < 0.5:
+            del m.aux_data["alignment"]
+        firsts = set()
+        orig = P.join_byte_intervals
+
+        def spy(intervals, *a, **k):
+            # join_byte_intervals pads in front of every interval but the first, for the first block of it that has an alignment entry
+            tab = m.aux_data["alignment"].data if "alignment" in m.aux_data else {}
+            for iv in intervals[1:]:          # the first interval stays where it is: nothing is padded in front of it
+                al = [b for b in iv.blocks if b in tab]
+                if al:
+                    firsts.add(id(min(al, key=lambda b: b.offset)))
+            return orig(intervals, *a, **k)
+        P.join_byte_intervals = spy
+        try:
+            ctx = gtirb_rewriting.RewritingContext(m, B.fobjs)
+            irgen.register(case, B, ctx, literal_patch)
+            ctx.apply()
+        except Exception:    # noqa
             return None
-        m = r["built"].m
-        for b, a in m.aux_data["alignment"].data.items():
+        finally:
+            P.join_byte_intervals = orig
+        for b, a in (m.aux_data["alignment"].data.items() if "alignment" in m.aux_data else ()):
             if isinstance(b, gtirb.ByteBlock) and b.address is not None and b.address % a != 0:
-                # known finding: a block created by `.align` inside a patch keeps its alignment entry but nothing pads in front of it
-                original = any(b is g for g in r["built"].gbs)
-                return (f"block at {b.address:#x} has alignment {a}", "C10-align-directive-inside-a-patch" if (patched_align and not original) else None)
+                # known finding: of the blocks of one interval only the first one with an alignment entry is padded for, so a block
+                # created by `.align` inside a patch that lands behind another aligned block of the same interval stays misaligned
+                original = any(b is g for g in B.gbs)
+                later = patched_align and not original and id(b) not in firsts
+                return (f"block at {b.address:#x} has alignment {a}" + ("" if later else " and is the first aligned block of an interval that is appended to another"),
+                        "C10-align-directive-inside-a-patch" if later else None)
         return None
 
     def spec(self, seed, case, r):
